@@ -121,7 +121,7 @@ ADDED = {
  "C12": "Also: the outstanding-commit marker is cleared only at a closed list of points. The log-position comparator weighs the id bytes the way the log writes them, file index major (a reproduced ordering defect was repaired). The log-file list LoadMaxAofId scans for a member's restart position is snapshot-first. Every store that raises the committed number from a commit is followed by a save of the member state (known findings: none is - a restarted acceptor forgets the commit it answered).",
  "C13": "Also: parser upper bounds and the reply buffer's headroom by linear entailment; the recycled text reply is fully reassigned; fixed-capacity table indexes. Allocations sized by an integer decoded from the wire are bounded. Table indexes decoded from a client's message are bounded; slices of the stored frame bounded by request-supplied lengths stay within it; value-frame walkers are bounded by the frame (four reproduced crash inputs were repaired). GetValueOffset never points beyond the frame (reproduced crash inputs repaired).",
  "C14": "Also: parser cursors (two reproduced chunking defects repaired), key/id normaliser totality, converters define every wire field of the pooled command; no parser field is assigned from a loop-carried local; an empty list completes at the element-count line (defect repaired); the option loop ends after the rest of the arguments is handed to a nested conversion (defect repaired).",
- "C15": "Also: no aliasing of the stored value into results; the pre-operation value is read before it is cleared. Redis-style result writers say error only where the engine's result says so; a binary request's data frame is a private buffer. On a grant the key's depth is incremented before the value operation runs. No comparison mixes the request-type and value-operation enumerations (known finding: PIPELINE). Every allocated value frame that is handed on as a frame has its own length minus four stored in its first four bytes before the hand-over (29 allocations). The engine reads the stored bytes as an integer only under the NUMBER type mark (known finding: it does not - SET n 10, INCRBY n 1 answers 12338).",
+ "C15": "Also: no aliasing of the stored value into results; the pre-operation value is read before it is cleared. Redis-style result writers say error only where the engine's result says so; a binary request's data frame is a private buffer. On a grant the key's depth is incremented before the value operation runs. No comparison mixes the request-type and value-operation enumerations (known finding: PIPELINE). Every allocated value frame that is handed on as a frame has its own length minus four stored in its first four bytes before the hand-over (29 allocations). The engine reads the stored bytes as an integer only under the NUMBER type mark (known finding: it does not - SET n 10, INCRBY n 1 answers 12338). SSA dominance rule: the stored frame is continued as an array only on the true side of IsArrayValue() (C15/R13).",
  "C16": "Also: replay quiescence is decided on the channels' queue counters (a reproduced start-up compaction race was repaired); nothing retired after publishing may be the published snapshot; log-file lists snapshot-first. HasLock reports a non-LOCK record gone only when no hold with its id exists. A compaction computes its input list once, before the load. The start-up compaction is started only after the replay wait. The temporary snapshot starts empty and the compaction's command carries every field HasLock reads (two defects repaired).",
  "C17": "Also: queue compaction and migration return the reference of every entry they drop. A function that answers a queued request itself tombstones it before scanning the wait queue. CFG reachability rule: a Lock.locked read used as a counter amount is not reachable from a call that may write Lock.locked (C17/R8).",
  "C18": "Also: AddProxy succeeds only after tracking the proxy. The code that registers a will does not return the registered command object to the pool. The will drain dispatches through the closing protocol object and every tracked proxy is repointed before the list is truncated; no reply is sent on the text reply channel once the connection is closed (a reproduced blocked Close was repaired). A lock command handed to the local engine is not freed by the caller; a re-INIT overwrites the client id only after the previous id's table entry is removed. The proxy re-routes through the client table only for an announced client id (defect repaired). A protocol's closed flag is set only by its own Close (known findings: two ADMIN branches mark the nested text protocol closed from outside, its wills never run).",
